@@ -252,6 +252,15 @@ struct Ctx<'a> {
     kinds: BTreeMap<String, Vec<String>>,
     /// per (stream, signature): the SMALLEST failing case seen so far (size, what, case) and the number of failures
     best: Best,
+    /// message class (imports::message_template) → diagnostic kind, learned from every diagnostic of the library leg
+    templates: BTreeMap<String, String>,
+    /// the built nitrogql-cli (`--cli`), the scratch directory, and how many CLI runs this harness run may still make
+    cli: String,
+    scratch: String,
+    cli_budget: usize,
+    cli_seen: usize,
+    /// CLI runs made for the current schema group (capped so that the budget is spread over the whole run)
+    cli_group: usize,
 }
 
 type Best = BTreeMap<(String, String), (usize, String, J, u64)>;
@@ -434,6 +443,9 @@ impl<'a> Ctx<'a> {
         }
         let ans = all_many(self.drv, &ts, reqs);
         let mut k = 0;
+        self.cli_group = 0;
+        // per project: number of roots judged spec-valid (C04), roots whose merge violates the labelled rule (C03)
+        let mut tally: BTreeMap<usize, (usize, Vec<usize>)> = BTreeMap::new();
         for (pi, ri, has_all, has_spec) in idx {
             let p = &projects[pi];
             let Ok(o) = &outs[pi] else { continue };
@@ -479,6 +491,7 @@ impl<'a> Ctx<'a> {
                     continue;
                 }
                 self.rep.o_cases += 1;
+                tally.entry(pi).or_default().1.push(ri);
                 if ri == 0 {
                     for f in &p.features {
                         self.rep.count(&format!("feature:{f}"));
@@ -539,6 +552,7 @@ impl<'a> Ctx<'a> {
                 continue;
             }
             self.rep.o_cases += 1;
+            tally.entry(pi).or_default().0 += 1;
             self.rep.count(&format!("o:{}", p.origin.split(':').next().unwrap_or("")));
             if ri == 0 {
                 for f in &p.features {
@@ -565,6 +579,92 @@ impl<'a> Ctx<'a> {
                 imports::RootOut::Panic(m) => {
                     self.fail("O", "import:panic", &format!("the real pipeline panicked (root {}): {m}", p.files[ri].path), p.to_json(&self.prop, ri), size);
                 }
+            }
+        }
+        for (pi, (valid_roots, violating)) in tally {
+            if let Ok(o) = &outs[pi] {
+                self.cli_leg(&projects[pi], o, valid_roots, &violating);
+            }
+        }
+    }
+
+    /// the CLI leg: the whole project through `nitrogql-cli check --output-format json` (every file is checked by the
+    /// command). `valid_roots` / `violating_roots`: what the reference validator said about the abstract merges.
+    fn cli_leg(&mut self, p: &imports::Project, o: &imports::ProjectOut, valid_roots: usize, violating_roots: &[usize]) {
+        if self.cli_budget == 0 {
+            return;
+        }
+        let reaches_checker = o.roots.iter().all(|r| matches!(r, imports::RootOut::Checked { .. }));
+        let mut local: BTreeMap<String, String> = BTreeMap::new();
+        for r in &o.roots {
+            if let imports::RootOut::Checked { raw, .. } = r {
+                for d in raw {
+                    local.entry(imports::message_template(&d.message)).or_insert_with(|| d.kind.clone());
+                    self.templates.entry(imports::message_template(&d.message)).or_insert_with(|| d.kind.clone());
+                }
+            }
+        }
+        let size = p.size();
+        if self.prop == "C04" && p.labels.is_empty() {
+            if valid_roots != p.files.len() || self.cli_group >= 2 {
+                return; // some file's merge is not spec-valid (e.g. an unused fragment): nothing is claimed about the command
+            }
+            self.cli_group += 1;
+            self.cli_budget -= 1;
+            let run = imports::run_project_cli(&self.cli, &self.scratch, p);
+            self.rep.count("cli-leg:valid-project");
+            self.rep.o_cases += 1;
+            self.rep.evaluations += 1;
+            if let Some(m) = &run.malformed {
+                self.fail("O", "cli:malformed-output", &format!("`check --output-format json` on a spec-valid project: {m}"), p.to_json(&self.prop, 0), size);
+            } else if run.code != Some(0) || !run.errors.is_empty() {
+                let class = run.errors.first().map(|e| self.templates.get(&imports::message_template(&e.3)).cloned().unwrap_or_else(|| "unknown-message".into())).unwrap_or_else(|| "no-diagnostic".into());
+                self.fail(
+                    "O",
+                    &format!("cli:{class}"),
+                    &format!("`nitrogql-cli check` exits {:?} with {} diagnostics on a project whose every file is spec-valid: {:?}", run.code, run.errors.len(), run.errors.first()),
+                    p.to_json(&self.prop, 0),
+                    size,
+                );
+            }
+        }
+        if self.prop == "C03" && !p.labels.is_empty() && !violating_roots.is_empty() && reaches_checker {
+            let l = &p.labels[0];
+            // faults that only the importing operation can expose come first; of the others every fourth project
+            self.cli_seen += 1;
+            let priority = matches!(l.rule.as_str(), "5.8.3" | "5.8.5" | "5.5.2.1");
+            if (!priority && self.cli_seen % 4 != 0) || self.cli_group >= 3 {
+                return;
+            }
+            self.cli_group += 1;
+            self.cli_budget -= 1;
+            let run = imports::run_project_cli(&self.cli, &self.scratch, p);
+            self.rep.count("cli-leg:faulty-project");
+            self.rep.count(&format!("cli-leg:rule:{}", l.rule));
+            self.rep.o_cases += 1;
+            self.rep.evaluations += 1;
+            let kinds: Vec<String> = self.kinds.get(&l.rule).cloned().unwrap_or_default();
+            let class_of = |m: &str| -> String { local.get(&imports::message_template(m)).or_else(|| self.templates.get(&imports::message_template(m))).cloned().unwrap_or_else(|| "unknown-message".into()) };
+            let got: BTreeSet<String> = run.errors.iter().map(|e| class_of(&e.3)).collect();
+            let ri = violating_roots[0];
+            if let Some(m) = &run.malformed {
+                self.fail("O", "cli:malformed-output", &format!("`check --output-format json`: {m}"), p.to_json(&self.prop, ri), size);
+            } else if run.code == Some(0) {
+                self.fail(
+                    "O",
+                    &format!("cli:{}:exit-0", l.rule),
+                    &format!("`nitrogql-cli check` exits 0 ({} diagnostics) although the merged document of {} violates rule {} ({} at {})", run.errors.len(), p.files[ri].path, l.rule, l.mutation, l.class),
+                    p.to_json(&self.prop, ri),
+                    size,
+                );
+            } else if !got.iter().any(|k| kinds.contains(k)) {
+                self.fail(
+                    "O",
+                    &format!("cli:{}:no-diagnostic-of-the-rule", l.rule),
+                    &format!("`nitrogql-cli check` exits {:?} but reports no diagnostic of the kinds {:?} of rule {} ({} at {}; merged document of {}); message classes {:?}", run.code, kinds, l.rule, l.mutation, l.class, p.files[ri].path, got),
+                    p.to_json(&self.prop, ri),
+                    size,
+                );
             }
         }
     }
@@ -636,6 +736,9 @@ impl<'a> Ctx<'a> {
         self.rep.k_cases += 1;
         for (k, _, _) in &realv {
             self.rep.count(&format!("kind:{k}"));
+        }
+        for d in raw {
+            self.templates.entry(imports::message_template(&d.message)).or_insert_with(|| d.kind.clone());
         }
         if model != realv {
             let only_real: Vec<&Triple> = realv.iter().filter(|t| !model.contains(t)).collect();
@@ -787,6 +890,11 @@ fn corpus() -> Vec<Case> {
         c("fragment-before-op-of-its-name", "fragment Q on A { id } query Q { a { ...Q } }", vec![]),
         c("names-across-namespaces", "query tag($a: Int = 1, $tag: String) @tag(label: $tag) { a: f(n: $a) a2: a { ...a ...f ...X } } fragment a on A { x } fragment f on A { id } fragment X on A { b { y } }", vec![]),
         c("names-differ-by-case", "query q { a { ...Q ...f } } query Q { a { ...F } } fragment Q on A { x } fragment f on A { id } fragment F on A { x }", vec![]),
+        // numeric boundaries: Float and ID take any integer literal, Int only 32-bit values (spec 3.5.1 / 3.5.2 / 3.5.5)
+        c("big-integers-for-float-and-id", "query Q { f(n: 2147483647, fl: 3000000000, id: 1099511627776, l: [-2147483648, 0, -0], ll: -1) }", vec![]),
+        c("big-integers-in-variable-defaults", "query Q($i: ID = 4294967296, $f: Float = 9007199254740993, $n: Int! = -2147483648) { f(n: $n, id: $i, fl: $f, x: {a: 2147483647}) a2: f(n: 0, fl: 1e400, id: 12345678901234567890) }", vec![]),
+        // OPEN finding (known-findings.txt): an integer literal beyond 32 bits is accepted where Int is expected
+        c("int-literal-outside-32-bit-range", "query Q { f(n: 4294967296) }", lbl("5.6.1-int32", "int-position", "int-literal-outside-32-bit-range")),
         c("anonymous-op-and-fragment-named-query", "{ a { ...query } } fragment query on A { x }", vec![]),
     ]
     .into_iter()
@@ -857,7 +965,14 @@ pub fn run(prop: &str) {
             }
         }
     }
-    let mut ctx = Ctx { prop: prop.to_string(), rep: &mut rep, drv: &mut drv, kinds, best: BTreeMap::new() };
+    let mut ctx = Ctx { prop: prop.to_string(), rep: &mut rep, drv: &mut drv, kinds, best: BTreeMap::new(), templates: BTreeMap::new(), cli: args.extra.get("cli").cloned().unwrap_or_default(), scratch: args.scratch.clone(), cli_budget: 0, cli_seen: 0, cli_group: 0 };
+    // the CLI leg of the import stream: a modest number of process spawns
+    if !args.scratch.is_empty() && std::path::Path::new(&ctx.cli).is_file() {
+        ctx.cli_budget = if prop == "C03" { args.budget(100, 1000) } else { args.budget(50, 500) };
+    } else {
+        ctx.rep.count("cli-leg:skipped-no-binary-or-scratch");
+        ctx.rep.notes.push(format!("CLI leg skipped: --cli {:?} is not a file or --scratch is empty", ctx.cli));
+    }
     if ctx.kinds.len() < 20 {
         ctx.rep.fail("K", "kinds-table", "the driver did not return the rule ↔ kind table", json!({}));
     }
@@ -1019,10 +1134,36 @@ pub fn run(prop: &str) {
                         projects.push(p);
                     }
                 }
+                // an imported fragment spreads a sibling of its own file that the importer does not import
+                for _ in 0..3 {
+                    let Some(mut plan) = imports::plan_project(&mut rng, &doc) else { break };
+                    if let Some(class) = imports::drop_sibling_import(&mut rng, &mut plan) {
+                        let mut p = imports::render_plan(&mut rng, &sdl, &plan, noisy);
+                        p.labels = vec![Label { rule: "5.5.2.1".into(), class, mutation: "drop-sibling-import".into() }];
+                        p.origin = "import-mutant".into();
+                        projects.push(p);
+                        break;
+                    }
+                }
+            }
+            if prop == "C04" && rng.chance(1, 2) {
+                // numeric boundary literals at Int / Float / ID positions
+                if let Some((d2, bf)) = mutate::boundary_numbers(&mut rng, &sch, &doc) {
+                    let mut f = feats.clone();
+                    f.extend(bf.into_iter());
+                    cases.push(Case { sdl: sdl.clone(), text: render(&d2, &mut rng), labels: vec![], origin: "valid-variant:boundary-numbers".into(), features: f, raw_schema: false });
+                }
             }
             // mutants
             let n_mut = if prop == "C03" { args.budget(6, 10) } else { 2 };
             let sites = mutate::collect_sites(&sch, &doc);
+            if prop == "C03" && rng.chance(1, 3) {
+                // an integer literal beyond 32 bits at an Int position (own rule id; never combined with shapes / second faults)
+                let mut mc = mutate::MCtx { rng: &mut rng, sch: &sch, doc: &doc, sites: &sites, only_def: None };
+                if let Some(m) = mc.int_literal_outside_32_bit_range() {
+                    cases.push(Case { sdl: sdl.clone(), text: render(&m.doc, &mut rng), labels: vec![m.label], origin: "mutant".into(), features: vec![], raw_schema: false });
+                }
+            }
             for _ in 0..n_mut {
                 let mut name = mutate::MUTATIONS[rng.below(mutate::MUTATIONS.len())];
                 if prop == "C03" && rng.chance(1, 12) {
